@@ -212,3 +212,99 @@ func init() {
 		},
 	}
 }
+
+func init() {
+	properties["C19"] = Property{
+		Level: "fault_enumeration",
+		Rule: "cases = points of the grid command {build, run, reverse, map} x outcome {success, go list error (missing import), type error, compile error in a dependency, link error (body-less function with an empty assembly file), bad build flag, garble flag after the command} x pre-existing -debugdir target {none, absent, empty, owned with stale content, foreign files, foreign sub-directories, symlink to a foreign or to an owned directory, regular file} x cache state {module-cold, warm} x output inside or outside the source tree, each on a drawn program. Oracle: a recursive (mode, size, sha256, link target) snapshot of the source tree is unchanged apart from the requested output; the private TMPDIR is empty afterwards; a non-empty target without the marker is refused and byte-identical afterwards (also behind a symlink); an owned/absent/empty target of a successful build holds a source tree equal to the original files and a garbled tree in which every module Go file exists and parses, with no stale content. Non-trivial = a failing outcome or a -debugdir state other than none; distinct = (command, outcome, target state, cache state).",
+		Assumptions: append([]string{"garble's stdout and stderr go to buffers, never to a pipe whose reader may exit first", "the grid is sampled by rapid in the quick tier and walked more densely in the thorough tier; it is not exhaustive"}, commonAssumptions...),
+		ReplayUnit:  "TestC19Replay",
+		Units: []Unit{
+			{Name: "TestC19", Kind: "e2e", Checks: [2]int{8, 80}, Workers: [2]int{3, 8}},
+		},
+	}
+}
+
+func init() {
+	properties["C15"] = Property{
+		Level: "exploration",
+		Rule: "in-process cases = struct type descriptions (1-5 fields, embedded or named, field types drawn recursively from basic types, named types of several packages, pointers, slices, arrays, maps, channels, functions, interfaces, nested structs) each built three times with fresh go/types objects, different tags and aliases in front of field types: every field must get the same name from hashWithStruct in all builds, with and without a seed (the generator checks with types.IdenticalIgnoreTags that its variants really are identical). End-to-end cases = generated programs that convert, assign and select fields between identical struct types declared in different packages, behind aliases, as anonymous struct types and as results of generic code; the program must build and behave like the regular build and, reading the -debugdir sources, all struct type expressions that are identical ignoring tags must carry the same garbled field names. Non-trivial = description with at least three kinds of type constructors, resp. program with at least one group of identical struct types spanning packages; distinct = description hash resp. (feature set, configuration).",
+		Assumptions: append([]string{"in the in-process part separate builds of one description stand for the separate garble processes that compile different packages"}, commonAssumptions...),
+		ReplayUnit:  "TestC15Replay",
+		Units: []Unit{
+			{Name: "TestVerifC15Struct", Kind: "inproc", Pkg: ".", Checks: [2]int{20000, 500000}, Workers: [2]int{1, 4}},
+			{Name: "TestC15", Kind: "e2e", Checks: [2]int{4, 40}, Workers: [2]int{3, 8}},
+		},
+	}
+}
+
+func init() {
+	properties["C14"] = Property{
+		Level: "exploration",
+		Rule: "cases = (drawn feature set placed over a fixed five-package module whose packages include siblings sharing a string prefix (alpha, alphabet), a nested package (alpha/inner) and an unrelated one (beta), so that obfuscated and plain packages import each other in both directions) x GOGARBLE pattern list from a fixed set of 12 (exact paths, element prefixes, globs, comma lists, a std package, module and host prefixes, a string prefix that is not an element prefix, lists matching nothing), built with -literals; the expected partition comes from an independent implementation of the documented prefix-glob rule (itself pinned by hand-computed cases). Oracle: output equals the regular build's incl. file:line positions reported from inside unselected packages; every marker name and in-window literal of a selected package is absent from the binary, every one of an unselected package (present in the regular binary) is still there, likewise import paths; selected packages do not report original positions; runtime function names are intact; a list matching nothing being built is refused with the GOGARBLE message and no binary. evaluations = scored markers. Non-trivial = partition with packages on both sides and an import crossing it (or a refused no-match list); distinct = (marker kind, side, pattern).",
+		Assumptions: append([]string{"positions 'verbatim' is read as file base name and line (the directory part of an unselected package's position is replaced by garble's temporary directory name on the unchanged tree)"}, commonAssumptions...),
+		ReplayUnit:  "TestC14Replay",
+		Units: []Unit{
+			{Name: "TestC14Model", Kind: "e2e", Fixed: true},
+			{Name: "TestC14", Kind: "e2e", Checks: [2]int{4, 40}, Workers: [2]int{3, 8}},
+		},
+	}
+}
+
+func init() {
+	properties["C08"] = Property{
+		Level: "exploration",
+		Rule: "end-to-end cases = generated programs in which, for each of up to 10 flow paths drawn from 20 (direct TypeOf, helper, helper's second parameter, helper chain, interface method, pointer, slice, variadic, function value, json.Marshal, json.Unmarshal, method expression, bound method value, FieldByName, nested/pointer/slice/map/array fields, generic instantiation, alias, map value, anonymous struct, helper in the using package), a distinct struct type reaches reflection only through that path; helper names are drawn to sort before or after their callers; declared in a dependency and used from a dependant or the same package; each program is built 2 (quick) or 5 (thorough) times on fresh caches because the analysis iterates maps. Oracle: the describer's output (type names, field names, method names, JSON keys, lookups by name) equals the regular build's in every build. In-process cases = name-pair tables for the injected replacer vs. strings.NewReplacer. evaluations = (program, flow) pairs. Non-trivial = every evaluated flow (its type would otherwise be obfuscated); distinct = (flow, configuration class, cross-package?).",
+		Assumptions: append([]string{"only Name(), Kind(), Field(i).Name, Method(i).Name, FieldByName and JSON output are printed; String()/PkgPath() carry the obfuscated package qualifier by design"}, commonAssumptions...),
+		ReplayUnit:  "TestC08Replay",
+		Units: []Unit{
+			{Name: "TestVerifC08Replacer", Kind: "inproc", Pkg: ".", Checks: [2]int{20000, 500000}, Workers: [2]int{1, 4}},
+			{Name: "TestC08", Kind: "e2e", Checks: [2]int{3, 30}, Workers: [2]int{3, 8}},
+		},
+	}
+}
+
+func init() {
+	properties["C07"] = Property{
+		Level: "fault_enumeration",
+		Rule: "cases = after a warm build of a three-package program whose reflection facts flow through a dependency that does not import reflect itself: 1-3 faults, each hitting 1-6 drawn entries of an area {index and data files of GARBLE_CACHE/build, the GOCACHE entries the build created, GARBLE_CACHE/tool/{link, link.lock, link.version}} with a kind {delete, empty, truncate to half, truncate to one byte}, or removing a whole directory {GARBLE_CACHE/build, GARBLE_CACHE/tool, GARBLE_CACHE}; then an edit {comment in main, code in main, literal in the middle package, none} and a rebuild, under {default, -literals, -seed}. Oracle: the rebuild succeeds and its binary (sha256) and its output incl. JSON keys and reflected names equal those of an isolated build of the edited source from module-cold caches. Non-trivial = at least one existing entry was hit; distinct = (fault area/kind multiset, edit, configuration).",
+		Assumptions: append([]string{"entries are sampled by rapid (quick) and more densely (thorough), not enumerated exhaustively; deleting the whole GOCACHE (a full std rebuild) is left to the thorough tier of C03/C06"}, commonAssumptions...),
+		ReplayUnit:  "TestC07Replay",
+		Units: []Unit{
+			{Name: "TestC07", Kind: "e2e", Checks: [2]int{6, 60}, Workers: [2]int{3, 8}},
+		},
+	}
+}
+
+func init() {
+	properties["C06"] = Property{
+		Level: "exploration",
+		Rule: "cases = histories of 4-10 steps over ONE shared (GOCACHE, GARBLE_CACHE) that starts as the union of the warmed caches of five configurations: build under a drawn configuration {default, -tiny, -literals, -seed (three values, two of them 12-byte seeds sharing their first 8 bytes), -literals -tiny} with or without -tags and -ldflags=-X (four values, targets in main and in a dependency), edit a drawn package {literal, new function, comment only}, rebuild with nothing changed. Reference model: a memo table (configuration, flags, source digest) -> (sha256, program output) filled by the same command on private module-cold caches. Invariant after every build: same exit status, same program output and same binary as the reference; after 'rebuild with nothing changed': go build -v names no package of the module. Non-trivial = a configuration is built again after another build or an edit intervened; distinct = the sequence of (configuration class, edit kind).",
+		Assumptions: append([]string{"reproducibility (C03) is presupposed: configurations with an open C03 finding are not part of the histories"}, commonAssumptions...),
+		ReplayUnit:  "TestC06Replay",
+		Units: []Unit{
+			{Name: "TestC06", Kind: "e2e", Checks: [2]int{2, 15}, Workers: [2]int{3, 6}, Shrink: "3m"},
+		},
+	}
+}
+
+func init() {
+	properties["C17"] = Property{
+		Level: "exploration",
+		Rule: "cases = trials of 2-6 simultaneous top-level garble builds over ONE shared GOCACHE, GARBLE_CACHE and TMPDIR: each process builds one of three small projects under {default, -tiny, -literals} with -p in {1,2,4,16} and a start offset from {0, 0.1, 0.5, 0.8, 3, 8, 15 s} (late starters meet a linker that another process is still building or has just installed); the shared cache starts warm, without the patched linker, or without GARBLE_CACHE at all. Oracle: every process exits 0 and its binary has the sha256 that the same command produces alone on private caches. Non-trivial = at least two processes overlapped in time (measured); distinct = (cache state, multiset of (project, configuration, -p)).",
+		Assumptions: append([]string{"interleavings of independent OS processes are sampled (offsets, -p, machine load), not enumerated: a pass is evidence, not exhaustion"}, commonAssumptions...),
+		ReplayUnit:  "TestC17Replay",
+		Units: []Unit{
+			{Name: "TestC17", Kind: "e2e", Checks: [2]int{2, 12}, Workers: [2]int{2, 3}, Shrink: "2m"},
+		},
+	}
+	properties["C18"] = Property{
+		Level: "fault_enumeration",
+		Rule: "cases = a build of a two-package program from {module-cold, linker-less, GARBLE_CACHE-less} caches under {default, -literals} with -p in {1,4,16} is started and its whole process group killed with SIGKILL at an instant drawn stratified over [0, 1.05 T] (10 strata, T = measured duration of the uninterrupted reference build from the same starting state), once or twice in succession; then the same build is run again on the same caches. Oracle: the rerun exits 0 and its binary equals the uninterrupted build's. Non-trivial = a kill hit a still-running build; the phase label (listing, compiling, linker build or link, finishing) comes from the kill fraction; distinct = (cache state, configuration, phase sequence).",
+		Assumptions: append([]string{"kill instants are sampled in time, not enumerated per write: a window of microseconds can be missed"}, commonAssumptions...),
+		ReplayUnit:  "TestC18Replay",
+		Units: []Unit{
+			{Name: "TestC18", Kind: "e2e", Checks: [2]int{3, 25}, Workers: [2]int{2, 4}, Shrink: "2m"},
+		},
+	}
+}
